@@ -19,11 +19,11 @@ type lockSet uint32
 
 type LockModel struct {
 	p       *Prog
-	names   []string             // class index -> name ("dataStore.mu", "global clientsMu")
-	byVar   map[*types.Var]int   // mutex struct field -> class
-	byGlob  map[*ssa.Global]int  // mutex global -> class
-	DB      int                  // class index of dataStore.mu (-1 if missing)
-	tokenOf map[*types.Var]int   // re-entrancy token field (dataStore.multiLock) -> class it vouches for
+	names   []string            // class index -> name ("dataStore.mu", "global clientsMu")
+	byVar   map[*types.Var]int  // mutex struct field -> class
+	byGlob  map[*ssa.Global]int // mutex global -> class
+	DB      int                 // class index of dataStore.mu (-1 if missing)
+	tokenOf map[*types.Var]int  // re-entrancy token field (dataStore.multiLock) -> class it vouches for
 
 	fl       map[*ssa.Function]*fnLocks
 	problems []string // unresolved lock operations (undecided)
@@ -47,17 +47,17 @@ type lstate struct {
 }
 
 type fnLocks struct {
-	fn      *ssa.Function
-	in      map[*ssa.BasicBlock]lstate
-	at      map[ssa.Instruction]lstate // state before executing the instruction
-	adds    lockSet
-	removes lockSet
+	fn          *ssa.Function
+	in          map[*ssa.BasicBlock]lstate
+	at          map[ssa.Instruction]lstate // state before executing the instruction
+	adds        lockSet
+	removes     lockSet
 	condRemoves lockSet // released only when the caller is not the exclusive owner
 	addsExcl    lockSet // returns as exclusive owner
-	mayExit lockSet // classes possibly still held (acquired inside) at some return
-	leakAt  map[int]ssa.Instruction
-	defers  []*ssa.Defer
-	hasBody bool
+	mayExit     lockSet // classes possibly still held (acquired inside) at some return
+	leakAt      map[int]ssa.Instruction
+	defers      []*ssa.Defer
+	hasBody     bool
 }
 
 func (ls lockSet) has(i int) bool { return i >= 0 && ls&(1<<uint(i)) != 0 }
